@@ -1683,9 +1683,11 @@ func installBuiltins(in *Interp, p *Package) {
 		if len(in.condStk) == 0 {
 			return nil, in.errf("rethrow: not inside a handler-bind handler")
 		}
+		in.condLog("rethrow")
 		return nil, in.condStk[len(in.condStk)-1]
 	})
 	B("host-cond", 1, 1, func(in *Interp, env *Env, a []*V) (*V, *Err) {
+		in.condLog("see")
 		id := 0
 		if n := len(in.condStk); n > 0 {
 			id = in.condStk[n-1].ID
